@@ -333,7 +333,7 @@ pub(crate) fn arb_step(fsm: &mut PeerFsm, role: Role, ev: Ev) -> Option<Term> {
     }
 }
 
-fn run_case_c07(line: &str) -> String {
+pub(crate) fn run_case_c07(line: &str) -> String {
     let Some(t) = Term::parse(line) else {
         return "(bad-case)".into();
     };
